@@ -11,7 +11,6 @@ def Touch.good (cfg : Config) (t : Touch) : Bool :=
   | .pickle => cfg.allowPickle
   | .import_ => cfg.importCustomExc
   | .modPresent => cfg.importCustomExc || cfg.instantiateCustomExc
-  | .modattr => cfg.instantiateCustomExc
   | _ => true
 
 def Ev.good (cfg : Config) : Ev → Bool
@@ -1445,8 +1444,8 @@ theorem Sat.classGate {c : Ctx} (hA : AwaitOK c) {need : List Nat} (modname clsn
   unfold Handlers.classGate
   refine Sat.bind_getCfg ?_
   refine Sat.ite (fun hi => ?_) (fun _ => ?_)
-  · refine Sat.bind (Sat.prim hA _ (by simp [Touch.good, hi]) (by mem_tac)) (fun present => ?_)
-    exact Sat.ite (fun _ => Sat.prim hA _ (by simp [Touch.good, hi]) (by mem_tac)) (fun _ => Sat.pure _ (by simp [PV.objs]))
+  · refine Sat.bind (Sat.prim hA _ (by simp [Touch.good, hi]) (by mem_tac)) (fun _ => ?_)
+    exact Sat.pure _ (by simp [PV.objs])
   · exact Sat.ite (fun _ => Sat.prim hA _ rfl (by mem_tac)) (fun _ => Sat.pure _ (by simp [PV.objs]))
 
 theorem Sat.loadExc {c : Ctx} (hA : AwaitOK c) {need : List Nat} (val : Val) : Sat c need (loadExc val) Ans.objs := by
